@@ -307,6 +307,13 @@ void Archetype::clear() {
         return;
     }
 
+    if (!operation_helper_.before_remove_functions.empty()) {
+        // every member loses all its components: beforeRemove fires like for any other detachment
+        for (auto i = ArchetypeEntityIndex::make(0); i < ArchetypeEntityIndex::make(size()); ++i) {
+            callOnRemove(i, mask_);
+        }
+    }
+
     for (const auto& info : operation_helper_.destroy) {
         for (auto i = ComponentStorageIndex::make(0); i < data_storage_->lastItemIndex().next(); ++i) {
             auto component_ptr = data_storage_->getData(info.component_index, i);
